@@ -260,6 +260,7 @@ func cmdCopyBin(args []string) {
 			fmt.Fprintf(pf, "%-12d\n", i)
 		}
 		rng := rand.New(rand.NewSource(*seed*1000003 + int64(i+*seedIndex)))
+		b["_i"] = i + *seedIndex
 		evs, err := run.PlayCopyBin(b, rng)
 		if err != nil {
 			die("scenario %d: %v", i, err)
